@@ -30,6 +30,15 @@ CHECKS = {
  "C20": dict(level="exploration", tech="property-based testing over a full status x modified grid with generated concurrent edits and sync orders; exact-set oracle + chain replay",
    text="Every case holds the complete grid (6 statuses x 21 modified values incl. boundaries, out-of-range, non-numeric); expire_tasks must remove exactly the deleted tasks with a readable modification time older than 180 days, record ordinary Delete operations with the full old task, and after synchronization in either order with concurrent edits (update, re-open, outright delete) elsewhere the purged tasks are gone on every replica and everything else is untouched.",
    note="Wall clock read by expire_tasks: boundary cells keep >= 60 s distance; odd integer syntaxes are don't-care.", ref="4/C20"),
+ "C05": dict(level="exploration", tech="exhaustive sweep of all short batches + property-based random batches; reference model, batch-vs-single differential, fault injection at every storage call of the commit",
+   text="All batches of length <= 4 over a 7-symbol alphabet on 3 prior states (in-memory; <= 3 on SQLite in quick) plus longer random batches with arbitrary recorded old values: one-at-a-time reference model, twin replica committing one operation per commit, operation log / undo list / counters, replica invariant, and an injected error or stop at EVERY storage-call index of commit_operations must leave everything unchanged.",
+   note="Storage transactions themselves assumed atomic here (C06/C16 check that).", ref="4/C05"),
+ "C07": dict(level="exploration", tech="stateful property-based testing against an operation-log model with per-operation prior states; chain inspection for withdrawn operations",
+   text="Generated valid edit/undo/stale-undo/undo-after-sync/sync histories through the real TaskData API on both storages; undo list == model suffix, reversal restores exactly the state before the undo point and removes exactly those operations, stale or synced lists are refused without change, undone unique-valued operations never appear in any version sent to the harness server.",
+   note="Lone undo-point segments: only 'tasks unchanged' is asserted.", ref="4/C07"),
+ "C15": dict(level="exploration", tech="stateful property-based testing with a relational oracle (old working set -> new working set) derived from the statement",
+   text="Generated histories of status changes through Task::set_status, bare creations, outright deletes, remote changes arriving by sync, undo, sync and rebuilds in both modes, on both storages; after every rebuild: slot 0 empty, membership == pending/recurring tasks exactly once, numbers kept (no renumber) or 1..n gap-free in the old relative order (renumber), newcomers last; after every commit: nobody moves and newly pending tasks are appended.",
+   note="Order among newcomers unspecified; a newcomer may reuse a dropped trailing number.", ref="4/C15"),
  "C12": dict(level="exploration", tech="property-based testing: generated histories with Unicode content and urgency scripts; independent snapshot decoder vs. chain replay at the snapshot's version",
    text="Every snapshot the harness server receives is decoded independently (zlib+JSON) and compared with the reference replay of the chain up to exactly its version; snapshots only directly after an accepted version whose urgency met the threshold; fresh replicas from snapshot + later versions equal the full replay; non-empty replicas never take over an offered snapshot.",
    note="Plaintext observed at the Server trait boundary; bounded histories.", ref="4/C12"),
